@@ -25,8 +25,12 @@ func writeEvidence(p *propDef, tier string, master uint64, recs []*runRec, enume
 	crashes := 0
 	capHits := 0
 	profiles := map[string]int{}
+	notes := map[string]int{}
 	for _, r := range recs {
 		res := r.res
+		for _, nv := range res.Notes {
+			notes[nv.Property+"/"+nv.Class]++
+		}
 		for k, v := range res.Faults {
 			faults[k] += v
 		}
@@ -101,6 +105,7 @@ func writeEvidence(p *propDef, tier string, master uint64, recs []*runRec, enume
 		"reach_probes":        probes,
 		"profiles":            profiles,
 		"known_finding_hits":  knownHits,
+		"other_oracle_notes":  notes,
 		"harness_problems":    harness,
 		"components":          p.components,
 		"build_s":             buildS,
